@@ -78,6 +78,15 @@ def cases(draw):
                 tt = mod['tasks'][int(k)]
                 case['mocks'][k] = {'by': 'class', 'value': {'kind': tt['kind'], 'digest': '%016x' % int(k)}}
         case['mocks'] = {k: v for k, v in case['mocks'].items() if k in keep or draw(st.booleans())}
+    # a mocked class may ALSO be listed among the chain's tasks (TestChain(all_tasks_of_module, mock_tasks={Expensive: ..})):
+    # it is still a mock.  Only classes without parameters (the real class is instantiated first and checks its own).
+    case['also_listed'] = []
+    if case['helper'] == 'TestChain':
+        for k in sorted(case['mocks']):
+            tt = mod['tasks'][int(k)]
+            if not tt['params'] and not tt.get('abstract') and draw(st.integers(0, 2)) == 0:
+                case['also_listed'].append(int(k))
+    case['listed_first'] = draw(st.booleans())
     inv = draw(st.integers(0, 5))
     if inv == 0:
         # drop a mock that a real task requires
@@ -93,6 +102,7 @@ def cases(draw):
         if reqp:
             case['values'].pop(draw(st.sampled_from(reqp)), None)
             case['invalid'] = 'missing-parameter'
+    case['also_listed'] = [k for k in case['also_listed'] if str(k) in case['mocks']]
     return case
 
 
@@ -144,7 +154,10 @@ def eval_case(case, rec):
         try:
             with hyp.quiet_output():
                 if case['helper'] == 'TestChain':
-                    tc = TestChain([cls(i) for i in case['real']], mock_tasks=mocks, parameters=params_for_helper(), **kw)
+                    extra = [cls(i) for i in case.get('also_listed', [])]
+                    listed = [cls(i) for i in case['real']]
+                    listed = extra + listed if case.get('listed_first') else listed + extra
+                    tc = TestChain(listed, mock_tasks=mocks, parameters=params_for_helper(), **kw)
                     helper_tasks = {mod['tasks'][i]['slug']: tc[mod['tasks'][i]['slug']] for i in case['real']}
                 else:
                     i = case['real'][0]
@@ -244,6 +257,8 @@ def eval_case(case, rec):
             cl.append('objects-as-instances')
         if any('raw' in s['value'] for s in case['mocks'].values()):
             cl.append('falsy-or-plain-mock')
+        if case.get('also_listed'):
+            cl.append('mocked-class-also-listed')
         rec.case(case, nontrivial=consumes_mock and defaulted, classes=cl, sample=describe(case))
     finally:
         ld.unload()
